@@ -68,7 +68,22 @@ struct Tally {
 fn judge<'a>(p: V3, cands: impl Iterator<Item = &'a RingInfo>) -> Result<Tally, String> {
     let mut t = Tally { strict: Vec::new(), covered: false, band: 0, candidates: 0, faces: BTreeSet::new() };
     for info in cands {
-        let (rv, _rt) = info.test(p);
+        let (rv, rt) = info.test(p);
+        // the library's own predicate (an observation point of this property) must agree with the ring
+        // oracle wherever the point is clear of the cell's outline by a wide margin
+        if rt.visible && rt.dist > 8.0 * info.band.max(contain::BAND) && ang(p, info.centre) <= 2.0 * info.cap {
+            let (lon, lat) = lonlat_of_vec(p);
+            if let Ok(d) = a5::core::cell::a5cell_contains_point(&crate::api::to_a5cell(&info.cell), api::lonlat(lon, lat.clamp(-90.0, 90.0))) {
+                let lib_inside = d > 0.0;
+                let ring_inside = rv == RingVerdict::Inside;
+                if lib_inside != ring_inside {
+                    return Err(format!(
+                        "the library's containment test says point ({}, {}) is {} cell {:#x} (value {:e}), but the point is {:.3e} rad {} its boundary ring",
+                        lon, lat, if lib_inside { "strictly inside" } else { "not inside" }, info.id, d, rt.dist, if ring_inside { "inside" } else { "outside" }
+                    ));
+                }
+            }
+        }
         match rv {
             RingVerdict::Outside => {
                 // near misses still count as candidates for the non-triviality rule
